@@ -22,6 +22,7 @@ PROP = "C13"
 HERE = os.path.join(core.ROOT, "data", "c13")
 
 MINI_DB = open(os.path.join(core.ROOT, "data", "mini.dat")).read()
+BAD_DB = "SOLUTION_MASTER_SPECIES\n Q Q+ 0 Q\nSOLUTION_SPECIES\n this is not a reaction\nEND\n"        # text that is not a database: LoadDatabaseString reports errors
 OK_INPUT = ("SOLUTION 1\n pH 7\n Na 1\n Cl 1\n Ca 0.5\nSELECTED_OUTPUT 1\n -totals Na\nUSER_PUNCH 1\n -headings txt n\n 10 PUNCH \"s\", 3\n"
             "SELECTED_OUTPUT 2\n -totals Cl Ca\nEND\nUSE solution 1\nREACTION 1\n NaCl 1\n 1 mmol\nEND\n")
 BAD_INPUT = "SOLUTION 1\n pH 7\n Na 1\n nonsense_option\nEND\n"
@@ -101,6 +102,8 @@ def op_list(level):
                 ops.append(("adderr", s, b))
                 ops.append(("addwarn", s, b))
                 ops.append(("load", s, b))
+                ops.append(("loadbad", s, b, "file"))
+                ops.append(("loadbad", s, b, "str"))
                 ops.append(("run", s, b, "ok"))
                 ops.append(("run", s, b, "bad"))
     else:
@@ -124,6 +127,7 @@ def op_list(level):
             ops.append(("runacc", s, b))
             ops.append(("adderr", s, b))
             ops.append(("load", s, b))
+            ops.append(("loadbad", s, b, "file" if s == 0 else "str"))
             ops.append(("run", s, b, "ok"))
             ops.append(("run", s, "f", "bad"))
     return ops
@@ -135,6 +139,10 @@ BASES = {
     "loaded": [("create", "c"), ("create", "cpp"), ("load", 0, "c"), ("load", 1, "cpp")],
     "ran": [("create", "c"), ("create", "cpp"), ("load", 0, "c"), ("load", 1, "cpp"), ("run", 0, "c", "ok"), ("run", 1, "cpp", "bad"),
             ("setcur", 0, "c", 2)],
+    # every global switch away from its default (files and strings on, error reporting off), custom file names
+    "sinks": [("create", "c"), ("create", "cpp"), ("load", 0, "c"), ("load", 1, "cpp")]
+             + [("setsw", s, "c" if s == 0 else "cpp", x, 0 if x == "Error" else 1) for s in (0, 1) for x in GLOBAL_SW]
+             + [("setname", s, "c" if s == 0 else "cpp", x, "a.out") for s in (0, 1) for x in NAMES],
 }
 
 # ------------------------------------------------------------------ invalid-instance table
@@ -308,6 +316,8 @@ def run_reference(runhist):
             for h in runhist:
                 if h[0] == "load":
                     rc = d2.call(t, "c", "LoadDatabaseString", MINI_DB)
+                elif h[0] == "loadbad":
+                    rc = d2.call(t, "c", "LoadDatabase", "no_such_database.dat") if h[1] == "file" else d2.call(t, "c", "LoadDatabaseString", BAD_DB)
                 elif h[0] == "run":
                     rc = d2.call(t, "c", "RunString", OK_INPUT if h[1] == "ok" else BAD_INPUT)
                 elif h[0] == "acc":
@@ -447,6 +457,15 @@ def apply_op(d, st, op, problems, tag):
             m.update({"cur": 1, "u_file": {1: 0}, "u_str": {1: 0}, "acc": "", "acc_clear": False, "loaded": True, "users": []})
             m["runhist"] = [("load",)]          # C07: a load returns the instance to the fresh state
             frame_free |= {"*run"}
+        elif name == "loadbad":
+            # a load that fails (file does not exist / text is not a database): non-zero, the instance has no database
+            # afterwards, per-user selected-output state is reset as by any load, every other setting is kept
+            rc = d.call(t, b, "LoadDatabase", "no_such_database.dat") if op[3] == "file" else d.call(t, b, "LoadDatabaseString", BAD_DB)
+            if rc == 0:
+                problems.append(("loadbad-rc", "a failing load (%s) via %s returned 0 (%s)" % (op[3], b, tag)))
+            m.update({"cur": 1, "u_file": {1: 0}, "u_str": {1: 0}, "acc": "", "acc_clear": False, "loaded": False, "users": []})
+            m["runhist"] = [("loadbad", op[3])]
+            frame_free |= {"*run", "GetErrorString", "GetWarningString"}
         elif name in ("run", "runacc"):
             if name == "run":
                 m["runhist"].append(("run", op[3]))
@@ -589,13 +608,14 @@ def run(tier):
     pool = core.Pool()
     plan = []
     if tier == "quick":
-        plan = [("full alphabet, depth 1 from 4 base states", "full", 1, list(BASES)),
+        plan = [("full alphabet, depth 1 from %d base states" % len(BASES), "full", 1, list(BASES)),
                 ("core alphabet, depth 2 from 3 base states", "core", 2, ["two", "loaded", "ran"])]
         dl = core.Deadline(240)
     else:
-        plan = [("full alphabet, depth 1 from 4 base states", "full", 1, list(BASES)),
+        plan = [("full alphabet, depth 1 from %d base states" % len(BASES), "full", 1, list(BASES)),
                 ("full alphabet, depth 2 from 3 base states", "full", 2, ["two", "loaded", "ran"]),
-                ("core alphabet, depth 3 from 3 base states", "core", 3, ["two", "loaded", "ran"])]
+                ("core alphabet, depth 3 from 3 base states", "core", 3, ["two", "loaded", "ran"]),
+                ("core alphabet, depth 2 from the base state with every switch and name set", "core", 2, ["sinks"])]
         dl = core.Deadline(2400)
     cands = {}
     for name, level, depth, bases in plan:
